@@ -192,6 +192,9 @@ def norm_scalar(kind, v):
     return v
 
 
+STRICT_PRESENCE = [True]
+
+
 def cmp_fields(table, sent, got, path, problems, with_req=True):
     for row in table:
         a, p, k = row[0], row[1], row[2]
@@ -222,6 +225,10 @@ def cmp_fields(table, sent, got, path, problems, with_req=True):
         elif k == "key":
             cmp_fields(KEY, sv or {}, gv or {}, here, problems)
         else:
+            if STRICT_PRESENCE[0] and sv is not None and gv is None and k != "strlist":
+                # a value the sender set - zero, empty or false as it may be - has disappeared
+                problems.append((here, "explicit_value_lost", _s(sv), None))
+                continue
             ns, ng = norm_scalar(k, sv), norm_scalar(k, gv)
             if ns != ng or (type(ns) is not type(ng) and not (isinstance(ns, (int, float)) and isinstance(ng, (int, float)))):
                 problems.append((here, "differs", _s(sv), _s(gv)))
@@ -865,7 +872,10 @@ def kind_value(k, depth):
         return ctx_strategy(depth)
     if k == "key":
         # (the participant is only there for messages of a group: a one-to-one revoke has none)
-        return st.fixed_dictionaries({"remote_jid": _jid, "from_me": st.booleans(), "id": _text}, optional={"participant": _text})
+        base = st.fixed_dictionaries({"remote_jid": _jid, "from_me": st.booleans(), "id": _text}, optional={"participant": st.one_of(_text, _jid)})
+        # (fields that happen to hold the same value stay two fields: a key built from a one-to-one message's sender names that
+        # jid as chat and as participant)
+        return st.one_of(base, base, base.map(lambda d: dict(d, participant=d["remote_jid"])))
     if k == "msg":
         return message_strategy(depth + 1)
     raise ValueError(k)
@@ -992,6 +1002,7 @@ def _enum_each_kind():
         {"sender_key_distribution_message": {"group_id": "1-2@g.us", "axolotl_sender_key_distribution_message": "33" * 10}},
         {"protocol": {"key": {"remote_jid": "49@s.whatsapp.net", "from_me": True, "id": "X", "participant": "p"}, "type": 0}},
         {"protocol": {"key": {"remote_jid": "49@s.whatsapp.net", "from_me": True, "id": "X1"}, "type": 0}},
+        {"protocol": {"key": {"remote_jid": "49@s.whatsapp.net", "from_me": False, "id": "X2", "participant": "49@s.whatsapp.net"}, "type": 0}},
     ]
     for i, s in enumerate(specs):
         yield {"sub": "attrs", "spec": s, "meta": {"incoming": True}, "edit": specs[(i + 1) % len(specs)], "edit_copy": bool(i % 2)}
@@ -1055,3 +1066,5 @@ def plan(tier):
         "shrink": "hypothesis",
         "budget_s": 150 if quick else 1500,
     }
+
+RULE += (' Also: an earlier message composed in the same process and edited in place; message keys whose participant equals the chat jid; attributes composed from a file with any subset of values stated (from_file); values the sender set explicitly (zero, empty, false) must not come back absent.')
